@@ -74,7 +74,7 @@ Proof.
   apply Nat.ltb_lt in E. cbn [with_queue queue]. rewrite app_length. simpl. lia.
 Qed.
 
-Lemma step_inv ps s a : inv ps s -> inv ps (fst (step ps s a)).
+Lemma step_inv ps ce s a : inv ps s -> inv ps (fst (step ps ce s a)).
 Proof.
   intros I. pose proof I as [H1 H2 H3 H4 H5].
   destruct a as [ok r|d|k p|k|rid|rid pick|kd v|]; cbn [step].
@@ -135,45 +135,45 @@ Proof.
         -- rewrite H5. reflexivity.
 Qed.
 
-Lemma run_cons ps s a t :
-  run ps s (a :: t) = (fst (run ps (fst (step ps s a)) t), snd (step ps s a) ++ snd (run ps (fst (step ps s a)) t)).
+Lemma run_cons ps ce s a t :
+  run ps ce s (a :: t) = (fst (run ps ce (fst (step ps ce s a)) t), snd (step ps ce s a) ++ snd (run ps ce (fst (step ps ce s a)) t)).
 Proof.
-  cbn [run]. destruct (step ps s a) as [s1 o1]. cbn [fst snd]. destruct (run ps s1 t). reflexivity.
+  cbn [run]. destruct (step ps ce s a) as [s1 o1]. cbn [fst snd]. destruct (run ps ce s1 t). reflexivity.
 Qed.
 
-Lemma run_inv ps l : forall s, inv ps s -> inv ps (fst (run ps s l)).
+Lemma run_inv ps ce l : forall s, inv ps s -> inv ps (fst (run ps ce s l)).
 Proof.
   induction l as [|a t IH]; intros s I; [exact I|].
   rewrite run_cons. cbn [fst]. apply IH. now apply step_inv.
 Qed.
 
 (* a state is reachable when some action sequence leads to it from a successful construction *)
-Definition reachable (ps : list N) (s : st) : Prop :=
-  exists r0 s0 acts, init ps true r0 = Ok s0 /\ s = fst (run ps s0 acts).
+Definition reachable (ps : list N) (ce : nat -> bool) (s : st) : Prop :=
+  exists r0 s0 acts, init ps true r0 = Ok s0 /\ s = fst (run ps ce s0 acts).
 
-Lemma reachable_inv ps s : reachable ps s -> inv ps s.
+Lemma reachable_inv ps ce s : reachable ps ce s -> inv ps s.
 Proof.
   intros (r0 & s0 & acts & Hi & ->). apply run_inv. eapply init_inv; eauto.
 Qed.
 
-Lemma run_app ps l1 : forall s l2,
-  run ps s (l1 ++ l2) =
-  (fst (run ps (fst (run ps s l1)) l2), snd (run ps s l1) ++ snd (run ps (fst (run ps s l1)) l2)).
+Lemma run_app ps ce l1 : forall s l2,
+  run ps ce s (l1 ++ l2) =
+  (fst (run ps ce (fst (run ps ce s l1)) l2), snd (run ps ce s l1) ++ snd (run ps ce (fst (run ps ce s l1)) l2)).
 Proof.
   induction l1 as [|a t IH]; intros s l2.
-  - cbn [app]. cbn [run fst snd app]. now destruct (run ps s l2).
+  - cbn [app]. cbn [run fst snd app]. now destruct (run ps ce s l2).
   - rewrite <- app_comm_cons, !run_cons, IH. cbn [fst snd]. now rewrite app_assoc.
 Qed.
 
-Lemma reachable_step ps s a : reachable ps s -> reachable ps (fst (step ps s a)).
+Lemma reachable_step ps ce s a : reachable ps ce s -> reachable ps ce (fst (step ps ce s a)).
 Proof.
   intros (r0 & s0 & acts & Hi & ->). exists r0, s0, (acts ++ [a]). split; auto.
   rewrite run_app. cbn [fst]. rewrite run_cons. reflexivity.
 Qed.
 
 (* every output of a run is the output of one step taken from a reachable state *)
-Lemma run_out_inv ps l : forall s o, In o (snd (run ps s l)) ->
-  exists pre a, In o (snd (step ps (fst (run ps s pre)) a)) /\ exists post, l = pre ++ a :: post.
+Lemma run_out_inv ps ce l : forall s o, In o (snd (run ps ce s l)) ->
+  exists pre a, In o (snd (step ps ce (fst (run ps ce s pre)) a)) /\ exists post, l = pre ++ a :: post.
 Proof.
   induction l as [|a t IH]; intros s o H; [destruct H|].
   rewrite run_cons in H. cbn [snd] in H. apply in_app_or in H. destruct H as [H|H].
@@ -229,10 +229,10 @@ Qed.
 
 (* ---------- writes *)
 
-Lemma write_spec ps s d : inv ps s ->
-  (closed s = true /\ step ps s (AWrite d) = (s, [ORet RClosed])) \/
+Lemma write_spec ps ce s d : inv ps s ->
+  (closed s = true /\ step ps ce s (AWrite d) = (s, [ORet RClosed])) \/
   (closed s = false /\ exists port, nth_error ps (idx s) = Some port /\ In port ps /\
-     step ps s (AWrite d) = (s, [OSockWrite (cur s) port d; ORet RWrote]) /\
+     step ps ce s (AWrite d) = (s, [OSockWrite (cur s) port d; ORet RWrote]) /\
      S (cur s) = length (socks s) /\ sock_open (socks s) (cur s) = true).
 Proof.
   intros I. pose proof I as [H1 H2 H3 H4 H5]. cbn [step].
@@ -243,8 +243,8 @@ Proof.
   - apply nth_error_None in En. lia.
 Qed.
 
-Lemma only_write_writes ps s a k port d :
-  In (OSockWrite k port d) (snd (step ps s a)) -> a = AWrite d.
+Lemma only_write_writes ps ce s a k port d :
+  In (OSockWrite k port d) (snd (step ps ce s a)) -> a = AWrite d.
 Proof.
   destruct a as [ok r|d'|k' p|k'|rid|rid pick|kd v|]; cbn [step].
   - destruct (closed s); [intros []|]. destruct ok; cbn [negb snd]; [|intros [H|[]]; discriminate].
@@ -270,19 +270,19 @@ Proof.
     destruct (prev s); simpl in H; intuition discriminate.
 Qed.
 
-Theorem writes_in_set ps r0 s0 acts k port d :
+Theorem writes_in_set ps ce r0 s0 acts k port d :
   init ps true r0 = Ok s0 ->
-  In (OSockWrite k port d) (snd (run ps s0 acts)) ->
+  In (OSockWrite k port d) (snd (run ps ce s0 acts)) ->
   In port ps /\
   exists pre post, acts = pre ++ AWrite d :: post /\
-    let s := fst (run ps s0 pre) in
+    let s := fst (run ps ce s0 pre) in
     closed s = false /\ k = cur s /\ S k = length (socks s) /\ sock_open (socks s) k = true /\
     nth_error ps (idx s) = Some port.
 Proof.
   intros Hi Hin. apply run_out_inv in Hin. destruct Hin as (pre & a & Hin & post & ->).
-  pose proof (only_write_writes _ _ _ _ _ _ Hin) as ->.
-  assert (I : inv ps (fst (run ps s0 pre))) by (apply run_inv; eapply init_inv; eauto).
-  destruct (write_spec ps _ d I) as [[Hc Hs]|[Hc (port' & Hn & Hp & Hs & Hl & Ho)]]; rewrite Hs in Hin; cbn [snd] in Hin.
+  pose proof (only_write_writes _ _ _ _ _ _ _ Hin) as ->.
+  assert (I : inv ps (fst (run ps ce s0 pre))) by (apply run_inv; eapply init_inv; eauto).
+  destruct (write_spec ps ce _ d I) as [[Hc Hs]|[Hc (port' & Hn & Hp & Hs & Hl & Ho)]]; rewrite Hs in Hin; cbn [snd] in Hin.
   - destruct Hin as [H|[]]; discriminate.
   - destruct Hin as [H|[H|[]]]; [|discriminate]. inversion H; subst.
     split; [assumption|]. exists pre, post. split; [reflexivity|]. cbn zeta. repeat split; assumption.
@@ -290,23 +290,23 @@ Qed.
 
 (* ---------- the receive path *)
 
-Lemma arrive_delivers ps s k x : inv ps s ->
+Lemma arrive_delivers ps ce s k x : inv ps s ->
   closed s = false -> (k = cur s \/ prev s = Some k) ->
   length (queue s) < packetQueueSize ->
-  step ps s (AArrive k x) = (with_queue s (queue s ++ [IPkt x]), []).
+  step ps ce s (AArrive k x) = (with_queue s (queue s ++ [IPkt x]), []).
 Proof.
   intros I Hc Hk Hq. cbn [step]. unfold enqueue.
   assert (sock_open (socks s) k = true) as -> by (apply (open_iff ps s k I); auto).
   apply Nat.ltb_lt in Hq. rewrite Hq. reflexivity.
 Qed.
 
-Lemma arrive_on_closed_socket ps s k x :
-  sock_open (socks s) k = false -> step ps s (AArrive k x) = (s, []).
+Lemma arrive_on_closed_socket ps ce s k x :
+  sock_open (socks s) k = false -> step ps ce s (AArrive k x) = (s, []).
 Proof. intros H. cbn [step]. unfold enqueue. rewrite H. reflexivity. Qed.
 
-Lemma read_fifo ps s rid pick x q :
+Lemma read_fifo ps ce s rid pick x q :
   In rid (armed s) -> closed s = false -> queue s = x :: q ->
-  step ps s (AReadSelect rid pick) =
+  step ps ce s (AReadSelect rid pick) =
   (with_armed (with_queue s q) (remove_rid rid (armed s)), [ORet (ret_of_item x)]).
 Proof.
   intros Ha Hc Hq. cbn [step].
@@ -315,11 +315,11 @@ Proof.
   cbn [negb]. rewrite Hq, Hc. reflexivity.
 Qed.
 
-Lemma hop_closes_prev ps s r p : inv ps s -> closed s = false -> prev s = Some p ->
-  let s' := fst (step ps s (AHop true r)) in
+Lemma hop_closes_prev ps ce s r p : inv ps s -> closed s = false -> prev s = Some p ->
+  let s' := fst (step ps ce s (AHop true r)) in
   prev s' = Some (cur s) /\ cur s' = length (socks s) /\
   sock_open (socks s') p = false /\ sock_open (socks s') (cur s) = true /\ sock_open (socks s') (cur s') = true /\
-  forall x, step ps s' (AArrive p x) = (s', []).
+  forall x, step ps ce s' (AArrive p x) = (s', []).
 Proof.
   intros I Hc Hp s'. assert (I' : inv ps s') by (apply step_inv; auto).
   pose proof I as [H1 H2 H3 H4 H5]. specialize (H2 p Hp).
@@ -344,10 +344,10 @@ Definition accepted_of (s : st) (a : action) : list item :=
   | _ => []
   end.
 
-Fixpoint accepted (ps : list N) (s : st) (l : list action) : list item :=
+Fixpoint accepted (ps : list N) (ce : nat -> bool) (s : st) (l : list action) : list item :=
   match l with
   | [] => []
-  | a :: t => accepted_of s a ++ accepted ps (fst (step ps s a)) t
+  | a :: t => accepted_of s a ++ accepted ps ce (fst (step ps ce s a)) t
   end.
 
 Definition returned_of (o : out) : list ret :=
@@ -368,9 +368,9 @@ Proof.
   repeat match goal with |- context [if ?c then _ else _] => destruct c end; reflexivity.
 Qed.
 
-Lemma step_fifo ps s a :
+Lemma step_fifo ps ce s a :
   map ret_of_item (queue s) ++ map ret_of_item (accepted_of s a) =
-  returned (snd (step ps s a)) ++ map ret_of_item (queue (fst (step ps s a))).
+  returned (snd (step ps ce s a)) ++ map ret_of_item (queue (fst (step ps ce s a))).
 Proof.
   destruct a as [ok r|d|k p|k|rid|rid pick|kd v|]; cbn [step accepted_of].
   - destruct (closed s); [cbn; now rewrite app_nil_r|].
@@ -388,26 +388,27 @@ Proof.
       destruct x; reflexivity.
   - cbn [fst snd]. rewrite returned_app. destruct kd, (prev s); cbn; now rewrite app_nil_r.
   - destruct (closed s); cbn [fst snd queue]; [cbn; now rewrite app_nil_r|].
-    rewrite returned_app. destruct (prev s); cbn; now rewrite app_nil_r.
+    rewrite returned_app. destruct (prev s), (ce (cur s)); cbn; now rewrite app_nil_r.
 Qed.
 
-Theorem run_fifo ps l : forall s,
-  map ret_of_item (queue s) ++ map ret_of_item (accepted ps s l) =
-  returned (snd (run ps s l)) ++ map ret_of_item (queue (fst (run ps s l))).
+Theorem run_fifo ps ce l : forall s,
+  map ret_of_item (queue s) ++ map ret_of_item (accepted ps ce s l) =
+  returned (snd (run ps ce s l)) ++ map ret_of_item (queue (fst (run ps ce s l))).
 Proof.
   induction l as [|a t IH]; intros s.
   - cbn. now rewrite app_nil_r.
-  - rewrite run_cons. cbn [accepted fst snd]. rewrite map_app, returned_app, app_assoc, (step_fifo ps s a).
+  - rewrite run_cons. cbn [accepted fst snd]. rewrite map_app, returned_app, app_assoc, (step_fifo ps ce s a).
     rewrite <- !app_assoc. f_equal. apply IH.
 Qed.
 
 (* ---------- Close *)
 
-Lemma close_spec ps s : inv ps s -> closed s = false ->
-  let s' := fst (step ps s AClose) in
+Lemma close_spec ps ce s : inv ps s -> closed s = false ->
+  let s' := fst (step ps ce s AClose) in
   closed s' = true /\ length (socks s') = length (socks s) /\
   (forall k, k < length (socks s') -> nth_error (socks s') k = Some (mkSock false 1)) /\
-  snd (step ps s AClose) = out_close_opt (prev s) ++ [OSockClose (cur s); ORet RNil].
+  snd (step ps ce s AClose) =
+    out_close_opt ce (prev s) ++ [OSockClose (cur s) (ce (cur s)); ORet (if ce (cur s) then RSockErr else RNil)].
 Proof.
   intros I Hc s'. assert (I' : inv ps s') by (apply step_inv; auto).
   assert (Ecl : closed s' = true) by (subst s'; cbn [step]; rewrite Hc; reflexivity).
@@ -425,13 +426,13 @@ Proof.
   intros [H1 H2 H3 H4 H5] Hc Hk. rewrite H5 by lia. unfold expected. rewrite Hc. reflexivity.
 Qed.
 
-Lemma closed_absorbing ps s : closed s = true ->
-  (forall ok r, step ps s (AHop ok r) = (s, [])) /\
-  (forall d, step ps s (AWrite d) = (s, [ORet RClosed])) /\
-  (forall rid, step ps s (AReadBegin rid) = (s, [ORet RClosed])) /\
-  step ps s AClose = (s, [ORet RNil]) /\
-  (forall a, closed (fst (step ps s a)) = true /\ socks (fst (step ps s a)) = socks s /\
-             prev (fst (step ps s a)) = prev s /\ cur (fst (step ps s a)) = cur s).
+Lemma closed_absorbing ps ce s : closed s = true ->
+  (forall ok r, step ps ce s (AHop ok r) = (s, [])) /\
+  (forall d, step ps ce s (AWrite d) = (s, [ORet RClosed])) /\
+  (forall rid, step ps ce s (AReadBegin rid) = (s, [ORet RClosed])) /\
+  step ps ce s AClose = (s, [ORet RNil]) /\
+  (forall a, closed (fst (step ps ce s a)) = true /\ socks (fst (step ps ce s a)) = socks s /\
+             prev (fst (step ps ce s a)) = prev s /\ cur (fst (step ps ce s a)) = cur s).
 Proof.
   intros Hc. repeat split; intros; cbn [step]; rewrite ?Hc; try reflexivity.
   all: destruct a as [ok r|d|k p|k|rid|rid pick|kd v|]; cbn [step]; rewrite ?Hc; cbn [fst]; auto.
@@ -440,14 +441,15 @@ Proof.
   all: try (destruct kd; cbn; auto; fail).
 Qed.
 
-Lemma closed_stays ps l : forall s, closed s = true ->
-  closed (fst (run ps s l)) = true /\ socks (fst (run ps s l)) = socks s /\
-  forall o, In o (snd (run ps s l)) -> o <> OListen true /\ o <> OListen false /\ forall k p d, o <> OSockWrite k p d.
+Lemma closed_stays ps ce l : forall s, closed s = true ->
+  closed (fst (run ps ce s l)) = true /\ socks (fst (run ps ce s l)) = socks s /\
+  forall o, In o (snd (run ps ce s l)) ->
+    o <> OListen true /\ o <> OListen false /\ (forall k p d, o <> OSockWrite k p d) /\ forall k e, o <> OSockClose k e.
 Proof.
   induction l as [|a t IH]; intros s Hc.
   - cbn. repeat split; auto; intros; contradiction.
   - rewrite run_cons. cbn [fst snd].
-    destruct (closed_absorbing ps s Hc) as (Hh & Hw & Hr & Hcl & Hall).
+    destruct (closed_absorbing ps ce s Hc) as (Hh & Hw & Hr & Hcl & Hall).
     destruct (Hall a) as (Hc' & Hs' & _). destruct (IH _ Hc') as (IH1 & IH2 & IH3).
     split; auto. split; [congruence|].
     intros o Ho. apply in_app_or in Ho. destruct Ho as [Ho|Ho]; [|now apply IH3].
@@ -463,6 +465,75 @@ Proof.
     + apply in_app_or in Ho. destruct Ho as [Ho|[<-|[]]]; [|repeat split; intros; discriminate].
       destruct (prev s); [destruct Ho as [<-|[]]|destruct Ho]. repeat split; intros; discriminate.
     + destruct Ho as [<-|[]]. repeat split; intros; discriminate.
+Qed.
+
+(* ---------- socket faults: which sockets report an error from Close() changes nothing but the
+   recorded result of those calls and the value Close returns *)
+
+Lemma step_state_indep ps ce ce' s a : fst (step ps ce' s a) = fst (step ps ce s a).
+Proof.
+  destruct a as [ok r|d|k p|k|rid|rid pick|kd v|]; cbn [step]; try reflexivity.
+  all: destruct (closed s); try reflexivity.
+  all: try (destruct ok; reflexivity).
+  all: try (destruct (nth_error ps (idx s)); reflexivity).
+  all: destruct (negb _); try reflexivity; destruct (queue s); try reflexivity; cbn [andb]; destruct pick; reflexivity.
+Qed.
+
+Lemma run_state_indep ps ce ce' l : forall s, fst (run ps ce' s l) = fst (run ps ce s l).
+Proof.
+  induction l as [|a t IH]; intros s; [reflexivity|].
+  rewrite !run_cons. cbn [fst]. rewrite (step_state_indep ps ce ce' s a). apply IH.
+Qed.
+
+Lemma reachable_indep ps ce ce' s : reachable ps ce s -> reachable ps ce' s.
+Proof.
+  intros (r0 & s0 & acts & Hi & ->). exists r0, s0, acts. split; [exact Hi|].
+  symmetry. apply run_state_indep.
+Qed.
+
+(* Close with failing sockets: both sockets get their Close call, the closed flag is set (closeChan
+   closed), every socket ever created ends up closed exactly once, the parked reads and the queue
+   are untouched, and the caller gets currentConn's error (prevConn's is dropped) *)
+Lemma close_spec_faults ps ce s : inv ps s -> closed s = false ->
+  let s' := fst (step ps ce s AClose) in
+  snd (step ps ce s AClose) =
+    out_close_opt ce (prev s) ++ [OSockClose (cur s) (ce (cur s)); ORet (if ce (cur s) then RSockErr else RNil)] /\
+  closed s' = true /\ length (socks s') = length (socks s) /\
+  (forall k, k < length (socks s') -> nth_error (socks s') k = Some (mkSock false 1)) /\
+  armed s' = armed s /\ queue s' = queue s /\ inv ps s'.
+Proof.
+  intros I Hc s'. destruct (close_spec ps ce s I Hc) as (H1 & H2 & H3 & H4).
+  split; [exact H4|]. split; [exact H1|]. split; [exact H2|]. split; [exact H3|].
+  subst s'. cbn [step]. rewrite Hc. cbn [fst armed queue]. split; [reflexivity|]. split; [reflexivity|].
+  pose proof (step_inv ps ce s AClose I) as I'. cbn [step] in I'. rewrite Hc in I'. exact I'.
+Qed.
+
+(* a ReadFrom parked in its select: blocked while the conn is open and the queue empty ... *)
+Lemma read_blocked ps ce s rid pick : closed s = false -> queue s = [] ->
+  step ps ce s (AReadSelect rid pick) = (s, []).
+Proof.
+  intros Hc Hq. cbn [step]. destruct (negb _); [reflexivity|]. rewrite Hq, Hc. reflexivity.
+Qed.
+
+(* ... and always able to return once the conn is closed: with the closed error if the queue is
+   empty (or the select picks closeChan), and it is no longer parked afterwards *)
+Lemma read_woken ps ce s rid pick : closed s = true -> In rid (armed s) ->
+  exists s' r, step ps ce s (AReadSelect rid pick) = (s', [ORet r]) /\ ~ In rid (armed s') /\
+               closed s' = true /\ socks s' = socks s /\
+               (queue s = [] \/ pick = true -> r = RClosed).
+Proof.
+  intros Hc Ha. cbn [step].
+  assert (existsb (Nat.eqb rid) (armed s) = true) as ->.
+  { apply existsb_exists. exists rid. split; auto. apply Nat.eqb_refl. }
+  cbn [negb]. rewrite Hc.
+  assert (Hrm : ~ In rid (remove_rid rid (armed s))).
+  { unfold remove_rid. intros H. apply filter_In in H. destruct H as [_ H]. rewrite Nat.eqb_refl in H. discriminate. }
+  destruct (queue s) as [|x q] eqn:Eq.
+  - eexists. exists RClosed. split; [reflexivity|]. cbn [armed with_armed closed socks]. auto.
+  - cbn [andb]. destruct pick.
+    + eexists. exists RClosed. split; [reflexivity|]. cbn [armed with_armed closed socks]. auto.
+    + eexists. exists (ret_of_item x). split; [reflexivity|]. cbn [armed with_armed with_queue closed socks].
+      repeat split; auto. intros [H|H]; discriminate.
 Qed.
 
 (* ---------- hop interval *)
@@ -500,16 +571,18 @@ Proof.
 Qed.
 
 (* ---------- non-vacuity: a concrete history (two hops, a failed listen, a packet on the previous
-   socket, Close, then operations on the closed conn) *)
+   socket, Close, then operations on the closed conn); Close() of the even-numbered sockets reports
+   an error: the hop discards socket 0's, Close discards nothing of socket 1 and returns socket 2's *)
 Local Open Scope nat_scope.
 Example ex_run :
   let ps := [443; 20000; 20001]%N in
+  let ce := Nat.even in
   exists s0, init ps true 4 = Ok s0 /\
-  run ps s0 [AHop true 2; AWrite 7; AHop false 0; AArrive 0 5; AHop true 1; AArrive 0 6; AArrive 1 8;
+  run ps ce s0 [AHop true 2; AWrite 7; AHop false 0; AArrive 0 5; AHop true 1; AArrive 0 6; AArrive 1 8;
              AReadBegin 1; AReadSelect 1 false; ASet SRB 4096; AClose; AHop true 0; AWrite 1; AReadBegin 2; AClose] =
   (mkSt (Some 1) 2 1 true [mkSock false 1; mkSock false 1; mkSock false 1] [IPkt 8] 4096 0 0 0 0 [],
-   [OListen true; OSockWrite 1 20001%N 7%N; ORet RWrote; OListen false; OListen true; OSockClose 0;
-    ORet (RPkt 5); OSockSet 1 SRB 4096; OSockSet 2 SRB 4096; OSockClose 1; OSockClose 2; ORet RNil;
+   [OListen true; OSockWrite 1 20001%N 7%N; ORet RWrote; OListen false; OListen true; OSockClose 0 true;
+    ORet (RPkt 5); OSockSet 1 SRB 4096; OSockSet 2 SRB 4096; OSockClose 1 false; OSockClose 2 true; ORet RSockErr;
     ORet RClosed; ORet RClosed; ORet RNil]).
 Proof. eexists. split; vm_compute; reflexivity. Qed.
 
@@ -521,5 +594,19 @@ Example ex_interval :
   next_interval 5000000000 9000000000 123456789012 = Ok 8456788982%Z.
 Proof. vm_compute. repeat split; reflexivity. Qed.
 
-Lemma failed_listen_changes_nothing ps s r : fst (step ps s (AHop false r)) = s.
+(* all four fault outcomes of the two sockets Close has to close (socket 0, closed by the second
+   hop, always reports an error): a read parked before Close is woken with the closed error, later
+   hops open nothing, writes fail; only the value Close returns differs *)
+Example ex_close_faults : forall ep ec,
+  let ps := [443; 20000]%N in
+  let ce := fun k => match k with 1 => ep | 2 => ec | _ => true end in
+  exists s0, init ps true 0 = Ok s0 /\
+  run ps ce s0 [AHop true 1; AHop true 0; AReadBegin 7; AReadSelect 7 false; AClose; AReadSelect 7 false;
+                AHop true 1; AWrite 1; AReadBegin 8; AClose] =
+  (mkSt (Some 1) 2 0 true [mkSock false 1; mkSock false 1; mkSock false 1] [] 0 0 0 0 0 [],
+   [OListen true; OListen true; OSockClose 0 true; OSockClose 1 ep; OSockClose 2 ec;
+    ORet (if ec then RSockErr else RNil); ORet RClosed; ORet RClosed; ORet RClosed; ORet RNil]).
+Proof. intros [] []; eexists; split; vm_compute; reflexivity. Qed.
+
+Lemma failed_listen_changes_nothing ps ce s r : fst (step ps ce s (AHop false r)) = s.
 Proof. unfold step. destruct (closed s); reflexivity. Qed.
